@@ -4,7 +4,8 @@ NEEDS = {
  "C02": ("squash_changes on a non-pruning trie adopts the new root only when `new_root_hash in self.db`: the blank root has no stored node, so a batch that empties the trie keeps the old root hash (same consequence as C01-7, other guard)", ["C02", "C01"]),
  "C03": ("get_from_proof raises BadTrieProof up front for an EMPTY proof: for the empty trie (blank root) the honest proof of any key is () and must verify to b''",
          ["C03 - strengthened (tries had at least two writes: the never-written and the emptied trie are now in the fixed corpus)"]),
- "C04": None,
+ "C04": ("ScratchDB.__init__ 'flattens' a ScratchDB built on a ScratchDB: it copies the enclosing buffer (DELETED markers included) and wraps the enclosing layer's OWN database, so an inner block's commit (do_deletes=True, the batch trie prunes) deletes from the real database of a non-pruning trie",
+         ["C04 - strengthened (blocks in C04 histories were never nested; a share of them now contains an inner block)", "C05"]),
  "C05": ("ScratchDB.cache becomes a CLASS attribute (one dict for every instance; batch_commit ends with .clear()): two blocks open at once - nested, or on unrelated tries - commit and wipe each other's buffers", ["C05", "C06"]),
  "C06": ("HexaryTrie.set no longer validates the VALUE up front (validate_is_node catches it later): a non-bytes value under a key that splits an existing leaf / extension is refused after the moved-down remainder was already persisted and counted - garbage for ever",
          ["C18, C06 - strengthened (missed: ill-typed values were only tried under one fixed key; C18 now uses keys that split existing nodes, C06 histories contain refused calls)"]),
